@@ -24,6 +24,7 @@ EXPLANATION = (
     "passed into a parameter that is instantiated, type value used for subscription/response matching, comparison, "
     "annotation, registry); instantiated wire messages must be SOURCE_CLIENT/BOTH, subscribed ones SOURCE_SERVER/BOTH. "
     "Nothing is imported or executed; the descriptor is decoded from its literal."
+    " Added: the message parsed is an instance of the class looked up for this very packet; the folded value of every registration call's type set contains only server- or both-originated types."
 )
 ASSUMPTIONS = [
     "protobuf wire format of FileDescriptorProto (decoded by the checker's own reader)",
